@@ -77,10 +77,50 @@ def _with_loop(fn):
 
 
 def _one(cands, what):
-    cands = sorted(set(cands))
+    cands = sorted(set(tuple(c) if not isinstance(c, str) else (c,) for c in cands))
     if len(cands) != 1:
         raise AccessBroken("cannot tell which attribute holds %s (candidates: %s)" % (what, cands))
     return cands[0]
+
+
+def _attrs(obj):
+    """Instance attributes of obj: its __dict__ and its __slots__."""
+    out = {}
+    d = getattr(obj, "__dict__", None)
+    if isinstance(d, dict):
+        out.update(d)
+    for k in type(obj).__mro__:
+        for n in getattr(k, "__slots__", ()) or ():
+            if isinstance(n, str) and n not in out:
+                try:
+                    out[n] = getattr(obj, n)
+                except AttributeError:
+                    pass
+    return out
+
+
+def _leaves(root, skip=()):
+    """(path, value) of every attribute of root and of the library's own helper objects it holds (one level down)."""
+    out = []
+    for k, v in _attrs(root).items():
+        out.append(((k,), v))
+        if (type(v).__module__ or "").startswith("zigpy_zboss") and not isinstance(v, type) and not any(v is x for x in skip) \
+                and type(v).__name__ not in ("ZBOSS", "ZbossNcpProtocol", "NVRAMHelper", "ControllerApplication"):
+            for k2, v2 in _attrs(v).items():
+                out.append(((k, k2), v2))
+    return out
+
+
+def _get(obj, path):
+    for n in path:
+        obj = getattr(obj, n)
+    return obj
+
+
+def _set(obj, path, value):
+    for n in path[:-1]:
+        obj = getattr(obj, n)
+    setattr(obj, path[-1], value)
 
 
 def _discover_proto(logical):
@@ -89,29 +129,30 @@ def _discover_proto(logical):
     def go(loop):
         p = _fresh_proto()
         if logical == "buffer":
-            return _one([k for k, v in vars(p).items() if isinstance(v, bytearray)], "the receive buffer")
+            return _one([k for k, v in _leaves(p) if isinstance(v, bytearray)], "the receive buffer")
         w = _W()
         p.connection_made(w)
         if logical == "transport":
-            return _one([k for k, v in vars(p).items() if v is w], "the transport")
-        ints0 = {k: v for k, v in vars(p).items() if type(v) is int}
+            return _one([k for k, v in _leaves(p) if v is w], "the transport")
+        ints0 = {k: v for k, v in _leaves(p) if type(v) is int}
         if logical == "pack_seq":
             p.data_received(build_frame_bytes(None, b"", 0x01))          # ACK carrying number 0: the numbering moves to 1
-            return _one([k for k, v in vars(p).items() if type(v) is int and ints0.get(k) == 0 and v == 1],
+            return _one([k for k, v in _leaves(p) if type(v) is int and ints0.get(k) == 0 and v == 1],
                         "the number of the next data frame")
         if logical == "ack_seq":
             p.data_received(build_frame_bytes(0x00020600, b"\x01\x02", 0xC0 | (2 << 2)))
-            return _one([k for k, v in vars(p).items() if type(v) is int and ints0.get(k) == 0 and v == 2],
+            return _one([k for k, v in _leaves(p) if type(v) is int and ints0.get(k) == 0 and v == 2],
                         "the number last acknowledged")
         if logical == "ack_event":
             import zigpy_zboss.types as t
             from zigpy_zboss.frames import Frame, HLPacket, LLHeader
-            none0 = [k for k, v in vars(p).items() if v is None]
+            none0 = [k for k, v in _leaves(p) if v is None]
             hl = HLPacket(t.HLCommonHeader(0x00010000), t.Bytes(b""))
             ll = LLHeader().with_signature(Frame.signature).with_size(hl.length + 5).with_type(6).with_flags(0xC0)
             loop.create_task(p.send(Frame(ll, hl)))
             loop.settle()
-            return _one([k for k in none0 if hasattr(vars(p).get(k), "is_set") and hasattr(vars(p).get(k), "set")],
+            now = dict(_leaves(p))
+            return _one([k for k in none0 if hasattr(now.get(k), "is_set") and hasattr(now.get(k), "set")],
                         "the acknowledgement signal")
         raise AccessBroken(logical)
     return _with_loop(go)
@@ -141,24 +182,24 @@ def _discover_api(logical):
                 loop.advance(0.01)
                 if not made or not tk.done() or tk.exception() is not None:
                     raise AccessBroken("connect() did not complete on a fake serial port")
-                return _one([k for k, v in vars(api).items() if v is made[0]], "the link object")
+                return _one([k for k, v in _leaves(api) if v is made[0]], "the link object")
             finally:
                 zigpy.serial.create_serial_connection = orig
         if logical == "listeners":
             import zigpy_zboss.commands as c
-            maps0 = {k: len(v) for k, v in vars(api).items() if isinstance(v, dict)}
+            maps0 = {k: len(v) for k, v in _leaves(api) if isinstance(v, dict)}
             api.register_indication_listener(c.NcpConfig.GetModuleVersion.Rsp(partial=True), lambda cmd: None)
-            return _one([k for k, n in maps0.items() if len(vars(api)[k]) == n + 1], "the registered listeners")
+            return _one([k for k, n in maps0.items() if len(_get(api, k)) == n + 1], "the registered listeners")
         if logical == "rx_fragments":
             from zigpy_zboss.frames import Frame
-            lists0 = {k: len(v) for k, v in vars(api).items() if isinstance(v, list)}
+            lists0 = {k: len(v) for k, v in _leaves(api) if isinstance(v, list)}
             fr, _ = Frame.deserialize(build_frame_bytes(0x00020600, b"\x01\x02", 0x40 | (1 << 2)))   # first, not last
             api.frame_received(fr)
-            return _one([k for k, n in lists0.items() if len(vars(api)[k]) == n + 1], "the fragments held")
+            return _one([k for k, n in lists0.items() if len(_get(api, k)) == n + 1], "the fragments held")
         if logical == "reset_lock":
             p = _fresh_proto(api)
             p.connection_made(_W())
-            setattr(api, name_api("uart"), p)
+            _set(api, name_api("uart"), p)
 
             class App:
                 def get_sequence(self):
@@ -167,10 +208,10 @@ def _discover_api(logical):
                 def connection_lost(self, e):
                     pass
             api.set_application(App())
-            locks0 = [k for k, v in vars(api).items() if isinstance(v, asyncio.Lock) and not v.locked()]
+            locks0 = [k for k, v in _leaves(api, skip=(p,)) if isinstance(v, asyncio.Lock) and not v.locked()]
             loop.create_task(api.reset())
             loop.settle()
-            return _one([k for k in locks0 if vars(api)[k].locked()], "the reset-in-progress lock")
+            return _one([k for k in locks0 if _get(api, k).locked()], "the reset-in-progress lock")
         raise AccessBroken(logical)
     return _with_loop(go)
 
@@ -185,9 +226,10 @@ def _resolve(kind, logical):
     else:
         from zigpy_zboss.api import ZBOSS
         fresh = ZBOSS(_cfg()[0])
-    if default in vars(fresh):
-        _names[key] = default
-        return default
+    settable = logical in ("transport", "pack_seq", "ack_seq", "ack_event", "uart")
+    if default in _attrs(fresh) or (not settable and hasattr(fresh, default)):
+        _names[key] = (default,)
+        return (default,)
     try:
         name = (_discover_proto if kind == "proto" else _discover_api)(logical)
     except AccessBroken:
@@ -195,7 +237,7 @@ def _resolve(kind, logical):
     except Exception as e:  # noqa
         raise AccessBroken("looking for %s of the %s object: %s: %s" % (logical, kind, type(e).__name__, e))
     _names[key] = name
-    discovered["%s.%s" % (kind, logical)] = name
+    discovered["%s.%s" % (kind, logical)] = ".".join(name)
     return name
 
 
@@ -208,19 +250,19 @@ def name_api(logical):
 
 
 def pget(proto, logical):
-    return getattr(proto, name_proto(logical))
+    return _get(proto, name_proto(logical))
 
 
 def pset(proto, logical, value):
-    setattr(proto, name_proto(logical), value)
+    _set(proto, name_proto(logical), value)
 
 
 def aget(api, logical):
-    return getattr(api, name_api(logical))
+    return _get(api, name_api(logical))
 
 
 def aset(api, logical, value):
-    setattr(api, name_api(logical), value)
+    _set(api, name_api(logical), value)
 
 
 def stampers(proto):
